@@ -175,13 +175,7 @@ func (tx *transaction) TopLevelBucket(name string) db.Bucket {
 	bucketPath := joinBucketPath(topLevelBucketDepth, name)
 	key := []byte(joinBucketPath(bucketNameBucket, bucketPath))
 
-	_, err := tx.l.ldb.Get(key, nil)
-	if !tx.readOnly && err == leveldb.ErrNotFound {
-		if v, _ := tx.b.Get(key); v != nil {
-			err = nil
-		}
-	}
-	if err != nil {
+	if !tx.bucketExists(key) {
 		return nil
 	}
 	//TOCONFIRM: check value == name
@@ -255,20 +249,15 @@ func (tx *transaction) FetchBucket(meta db.BucketMeta) db.Bucket {
 	if meta == nil {
 		return nil
 	}
+	path := joinBucketPath(meta.Paths()...)
+	key := []byte(joinBucketPath(bucketNameBucket, path))
+	if !tx.bucketExists(key) {
+		// not there, or deleted earlier in this write transaction
+		delete(tx.cache, meta)
+		return nil
+	}
 	bkt, ok := tx.cache[meta]
 	if !ok {
-		path := joinBucketPath(meta.Paths()...)
-		key := []byte(joinBucketPath(bucketNameBucket, path))
-
-		_, err := tx.l.ldb.Get(key, nil)
-		if !tx.readOnly && err == leveldb.ErrNotFound {
-			if v, _ := tx.b.Get(key); v != nil {
-				err = nil
-			}
-		}
-		if err != nil {
-			return nil
-		}
 		//TOCONFIRM: check value == name
 
 		bkt = &levelBucket{
@@ -281,6 +270,21 @@ func (tx *transaction) FetchBucket(meta db.BucketMeta) db.Bucket {
 		tx.cache[meta] = bkt
 	}
 	return bkt
+}
+
+// bucketExists reports whether the bucket index entry key is present as this
+// transaction sees it: a write transaction's own puts and deletes take precedence
+// over the committed data.
+func (tx *transaction) bucketExists(key []byte) bool {
+	if !tx.readOnly {
+		if v, deleted := tx.b.Get(key); deleted {
+			return false
+		} else if v != nil {
+			return true
+		}
+	}
+	_, err := tx.l.ldb.Get(key, nil)
+	return err == nil
 }
 
 // CreateTopLevelBucket ...
@@ -403,13 +407,7 @@ func (b *levelBucket) Bucket(name string) db.Bucket {
 
 	key := []byte(joinBucketPath(bucketNameBucket, sub.path))
 
-	_, err = b.tx.l.ldb.Get(key, nil)
-	if !b.tx.readOnly && err == leveldb.ErrNotFound {
-		if v, _ := b.tx.b.Get(key); v != nil {
-			err = nil
-		}
-	}
-	if err != nil {
+	if !b.tx.bucketExists(key) {
 		return nil
 	}
 	// if err != nil || string(value) != name {
